@@ -2,6 +2,7 @@
 #include <asl/Date.h>
 #include <asl/String.h>
 #include "vp.h"
+#include <string.h>
 using namespace asl;
 
 // proleptic Gregorian calendar in pure integers (reference)
@@ -134,6 +135,36 @@ extern "C" void h_frac(void)
 	double t = d.time(), t0 = base.time();
 	vp_assert(t == t, "a date-time with 1..9 fractional digits is valid");
 	vp_assert(t >= t0 && t <= t0 + 1.0, "the fraction adds at most one second to the instant (a double near 1.5e9 resolves 2.4e-7 s, so .99999998 may round up to the next second)");
+	vp_note(1);
+	vp_reach(1);
+}
+
+// HTTP format vs ISO format of the same wall-clock text with a symbolic 4-digit year and day: both denote the same instant
+static unsigned long long dbits(double x) { unsigned long long u; memcpy(&u, &x, 8); return u; }
+// p0 = 0: year digits symbolic; p0 = 1..: one of a few concrete years (the symbolic comparison is decided syntactically when both
+// parsers build the same term; concrete years give a definite verdict when they do not)
+extern "C" void h_http(void)
+{
+	static const char* const YEARS[] = { "", "0001", "0050", "0099", "0100", "1900", "1969", "2000", "9999" };
+	int which = vp_param(0);
+	char y[5]; for (int i = 0; i < 4; i++) { if (which) y[i] = YEARS[which][i]; else { y[i] = (char)nondet_u8(); vp_assume(y[i] >= '0' && y[i] <= '9'); } } y[4] = 0;
+	vp_assume(!(y[0] == '0' && y[1] == '0' && y[2] == '0' && y[3] == '0'));
+	char d0 = (char)nondet_u8(), d1 = (char)nondet_u8(); vp_assume(d0 >= '0' && d0 <= '2' && d1 >= '0' && d1 <= '9' && !(d0 == '0' && d1 == '0') && !(d0 == '2' && d1 == '9'));
+	char h[40], s[32]; int n = 0, m = 0;
+	const char* a = "Tue, "; while (*a) h[n++] = *a++;
+	h[n++] = d0; h[n++] = d1;
+	a = " Mar "; while (*a) h[n++] = *a++;
+	for (int i = 0; i < 4; i++) h[n++] = y[i];
+	a = " 12:34:56 GMT"; while (*a) h[n++] = *a++;
+	h[n] = 0;
+	for (int i = 0; i < 4; i++) s[m++] = y[i];
+	a = "-03-"; while (*a) s[m++] = *a++;
+	s[m++] = d0; s[m++] = d1;
+	a = "T12:34:56Z"; while (*a) s[m++] = *a++;
+	s[m] = 0;
+	Date dh = Date(String(h)), di = Date(String(s));
+	if (which) vp_assert(di.time() == di.time(), "the ISO form of a valid date parses");
+	vp_assert(dbits(dh.time()) == dbits(di.time()), "the HTTP format and the ISO format of the same date and time denote the same instant");
 	vp_note(1);
 	vp_reach(1);
 }
